@@ -44,6 +44,10 @@ def run(tier, seed):
     for u in ("forged", "lists", "dirs"):
         c.mc("db", "MC_DbVerify", cfg_with(c, f"MC_DbVerify_{pre}_{u}.cfg", now), name=u, workers=12, timeout=3000,
              heap="12g", coverage=(u == "forged"), vacuity=["ChooseDir"] if u == "forged" else None)
+    if not q:
+        # N = 2 explores absent / own / other certified content per file; foreign contents with N = 1
+        c.mc("db", "MC_DbVerify", cfg_with(c, "MC_DbVerify_q_dirs.cfg", now), name="dirs-N1-all-options", workers=12,
+             timeout=3000, heap="12g", coverage=False)
     if k_name or k_dir:
         # the proposed fix (per-name comparison on the success path + only canonical names kept from the served
         # list + direct-child immutable directory) closes the model without any excuse
